@@ -9,9 +9,11 @@ import (
 	"bytes"
 	"encoding/json"
 	"encoding/xml"
+	"fmt"
 	"io"
 	"math"
 	"strconv"
+	"strings"
 
 	"github.com/unixpickle/model3d/fileformats"
 	"github.com/unixpickle/model3d/model2d"
@@ -372,6 +374,77 @@ func rtRun2(id *int, out *ndWriter, stats map[string]int, faces [][]int, real st
 	}
 }
 
+type bigRec struct {
+	Kind string `json:"kind"`
+	ID   int    `json:"id"`
+	Site string `json:"site"`
+	NIn  int    `json:"nin"`
+	NOut int    `json:"nout"`
+	Same bool   `json:"same"`
+	Err  string `json:"err"`
+}
+
+// files with more faces than the decoders' capacity hints (2^16)
+func bigRun(id *int, out *ndWriter, stats map[string]int) {
+	for _, n := range []int{65536, 65537, 70001} {
+		tris := make([]*model3d.Triangle, n)
+		for i := range tris {
+			x := float64(i % 1024)
+			y := float64(i / 1024)
+			tris[i] = &model3d.Triangle{model3d.XYZ(x, y, 0), model3d.XYZ(x+1, y, 0), model3d.XYZ(x, y+1, 1)}
+		}
+		same := func(got []*model3d.Triangle) bool {
+			if len(got) != len(tris) {
+				return false
+			}
+			for i := range got {
+				if *got[i] != *tris[i] {
+					return false
+				}
+			}
+			return true
+		}
+		emit := func(site string, got []*model3d.Triangle, err error, p string) {
+			*id++
+			out.write(bigRec{Kind: "big", ID: *id, Site: site, NIn: n, NOut: len(got), Same: same(got), Err: errText(err, p)})
+			stats["records"]++
+			stats["site:"+site]++
+			stats["nonempty"]++
+		}
+		{
+			var got []*model3d.Triangle
+			var err error
+			p := protect(func() { got, err = model3d.ReadSTL(bytes.NewReader(model3d.EncodeSTL(tris))) })
+			emit("STL-large", got, err, p)
+		}
+		{
+			// OFF text with one vertex table entry per corner
+			var sb strings.Builder
+			fmt.Fprintf(&sb, "OFF\n%d %d 0\n", 3*n, n)
+			for _, t := range tris {
+				for _, c := range t {
+					fmt.Fprintf(&sb, "%g %g %g\n", c.X, c.Y, c.Z)
+				}
+			}
+			for i := 0; i < n; i++ {
+				fmt.Fprintf(&sb, "3 %d %d %d\n", 3*i, 3*i+1, 3*i+2)
+			}
+			var got []*model3d.Triangle
+			var err error
+			p := protect(func() { got, err = model3d.ReadOFF(strings.NewReader(sb.String())) })
+			emit("OFF-large", got, err, p)
+		}
+		if n == 65537 {
+			var got []*model3d.Triangle
+			var err error
+			p := protect(func() {
+				got, _, err = model3d.ReadColorPLY(bytes.NewReader(model3d.EncodePLY(tris, func(model3d.Coord3D) [3]uint8 { return [3]uint8{1, 2, 3} })))
+			})
+			emit("PLY-large", got, err, p)
+		}
+	}
+}
+
 func init() {
 	register("c15-mesh", func(a args) {
 		out := newNDWriter(a.str("out", "records.ndjson"))
@@ -379,6 +452,9 @@ func init() {
 		stats := map[string]int{}
 		arity := a.int("arity", 3)
 		id := a.int("firstid", 0)
+		if arity == 3 {
+			bigRun(&id, out, stats)
+		}
 		readNDJSON(a.str("in", "cases.ndjson"), func(line []byte) {
 			var faces [][]int
 			if err := json.Unmarshal(line, &faces); err != nil {
